@@ -62,19 +62,39 @@ def renew_case(seed, i, how):
     its NEWEST change - at the deadline of the first write it must still be there, whole (index and version)"""
     r = rng_for(seed, "c17r/%d" % i)
     e = r.choice(EVENT_KEYS)
-    lines = [hist.cfg_line("memkv", eventsttl=1), "create %s %s" % (hx(e), hx(b"v1")), "rev", "sleep 550"]
+    lines = [hist.cfg_line("memkv", eventsttl=1), "mark first", "create %s %s" % (hx(e), hx(b"v1")), "rev", "sleep 550"]
     if how == "update":
-        lines += ["update %s %s %d" % (hx(e), hx(b"v2"), hist.INIT + 1), "rev"]
+        lines += ["mark newest", "update %s %s %d" % (hx(e), hx(b"v2"), hist.INIT + 1), "rev"]
         newest = hist.INIT + 2
     else:
-        lines += ["delete %s 0" % hx(e), "rev", "create %s %s" % (hx(e), hx(b"v2")), "rev"]
+        lines += ["delete %s 0" % hx(e), "rev", "mark newest", "create %s %s" % (hx(e), hx(b"v2")), "rev"]
         newest = hist.INIT + 3
-    lines += ["sleep 700", "echo young", "get %s 0" % hx(e), "create %s %s" % (hx(e), hx(b"dup")), "rev",
-              "update %s %s %d" % (hx(e), hx(b"v3"), newest), "rev"]
+    # the verdict needs real time: the first write's deadline has passed (since first >= 1050 ms BEFORE the probes),
+    # the newest write's has not (since newest < 950 ms AFTER them); a run that was starved of CPU is inconclusive
+    lines += ["sleep 700", "since first", "echo young", "get %s 0" % hx(e), "create %s %s" % (hx(e), hx(b"dup")), "rev",
+              "update %s %s %d" % (hx(e), hx(b"v3"), newest), "rev", "since newest"]
     return core.Case("backend", lines, {"engine": "memkv", "native": True, "renew": True, "ev": [e], "look": []}, compare=lambda op: False)
 
 
+def renew_conclusive(case):
+    t = {}
+    for line, out in zip(case.lines, case.impl):
+        o = out.split()
+        if line.startswith("since ") and len(o) == 3:
+            t[o[1]] = int(o[2])
+    # the renewing write itself must have landed while the first value was alive
+    renewed = True
+    for line, out in zip(case.lines, case.impl):
+        if line == "echo young":
+            break
+        if line.split()[0] in ("update", "create", "delete") and out.split()[1:2] != ["ok"]:
+            renewed = False
+    return renewed and t.get("first", 0) >= 1050 and t.get("newest", 10 ** 9) < 950
+
+
 def renew_oracle(case):
+    if not renew_conclusive(case):
+        return None
     young = False
     for i, (line, out) in enumerate(zip(case.lines, case.impl)):
         t, o = line.split(), out.split()
@@ -217,6 +237,13 @@ def check(rep, tier, seed):
     cases += [native_case(seed, i, ["badger", "memkv"][i % 2]) for i in range(4 if tier == "quick" else 96)]
     cases += [renew_case(seed, i, ["update", "recreate"][i % 2]) for i in range(2 if tier == "quick" else 24)]
     core.run_cases(cases, workers=14)
+    for c in cases:
+        if c.meta.get("renew"):
+            for _ in range(3):
+                if renew_conclusive(c):
+                    break
+                c.run()
+            rep.cov["renew_cases_conclusive"] = rep.cov.get("renew_cases_conclusive", 0) + (1 if renew_conclusive(c) else 0)
     pick = lambda c: concurrent_oracle(c) if c.meta.get("concurrent") else renew_oracle(c) if c.meta.get("renew") else native_oracle(c) if c.meta.get("native") else oracle(c)
     if core.judge(rep, "C17", cases, pick):
         return
